@@ -197,6 +197,23 @@ PROPS = {
         "assumptions": ["A-NET: net.IP.To4 / IsGlobalUnicast / IPNet.Contains as modelled (validated by the ip correspondence)",
                         "networks are CIDR networks in canonical form (no host bits in the base address), contiguous masks"],
     },
+    "C17": {
+        "proofs": ["ZlProofs.Props.C17"],
+        "corr": [],
+        "search": ["c17"],
+        "trusted_base": TB_COMMON + ["the hand-written scan classification of list-reading lints in ZlProofs/Props/C17.lean (part of the specification; totality against the extracted readers is a kernel-checked obligation)",
+                                     "the extractor's loop-status facts (which statuses a lint can return from inside a range loop)"],
+        "assumptions": ["self-issued certificates are excluded from the permutation search (permuting changes the signed bytes, and SelfSigned depends on signature verification)"],
+        "partial": "that each rule body is the scan its class says is established by classification + permutation search, not by translating the body",
+    },
+    "C20": {
+        "proofs": ["ZlProofs.Props.C20"],
+        "corr": [],
+        "search": ["c20"],
+        "trusted_base": TB_COMMON + ["the pair table in ZlProofs/Props/C20.lean and harness/pairs.go (transcribed from the property)"],
+        "assumptions": [],
+        "partial": "per-element agreement of two Go rule bodies is searched (atoms of every GeneralName kind and content class, DN mirroring, corpus, threshold sweeps), not proved; the lifting from elements to lists and the threshold implication are proved",
+    },
     "C14": {
         "proofs": ["ZlProofs.Props.C14"],
         "corr": ["codec"],
@@ -297,5 +314,13 @@ CLAIMS["C11"] = {"technique": "Lean 4 proof (locality, error locality, no-leak s
 CLAIMS["C15"] = {"technique": "Lean 4 proof of the dispatch / format-override / summary-count logic + built-binary vs library differential run",
     "text": "dispatch_total, dispatch_cert_iff, dispatch_crl_iff, encodings_agree, fails_closed, summary_levels, summary_counts for all inputs. Tie and search: the binary built from the current tree is run on corpus certificates and CRLs in PEM / DER / base64, from file and stdin, several files per invocation, with generated selection and summary flags; printed results and summary counts are compared with in-process library results under the same FilterOptions; nineteen classes of undecodable input / unknown selectors must exit non-zero with empty stdout.",
     "note": "Partial: process behaviour is observed, not proved."}
+
+CLAIMS["C17"] = {"technique": "Lean 4 proof (permutation invariance of the four scan classes) + kernel-checked classification of every list-reading lint over regenerated footprints + permutation search",
+    "text": "scan_perm: any-match, all-match, count and set-valued scans give the same verdict on every permutation of every list. Every registered lint whose regenerated footprint reads an order-bearing list field (SAN/IAN entries, extensions, EKUs, policies, RDN attributes, CRL entries) must appear in the hand-written class table (class_table_total), and a lint that can return different statuses from inside the loop must be reviewed or listed. Search: SAN/IAN entries, extensions, EKUs and policies of kit and corpus certificates permuted by DER surgery, all lints compared. Eight committed known findings (first-unparseable-name NA and the NFC lint) are excused by lint name only.",
+    "note": "Partial: the body-is-a-scan step is classification + search. Known findings: 8 san-order entries in known_findings.json."}
+
+CLAIMS["C20"] = {"technique": "Lean 4 proof (element-wise agreement lifts to mirrored lists; threshold implication) + kernel checks over the regenerated registry + pair search on the real lints",
+    "text": "mirror_agree / mirror_agree_finding / threshold_implies for all lists and limits; pairs_registered and mirror_status_sets_agree decided by the kernel over the regenerated registry and status sets. Search: each SAN/IAN pair on the same GeneralNames (every kind, generated content classes incl. opaque URIs, IPv6 literals, empty and non-IA5 values), subject/issuer pairs on mirrored DNs, RFC/CABF DNS pairs, DSA and AIA pairs on the corpus, 398/397-day and 32768/64-character threshold sweeps.",
+    "note": "Partial: element agreement searched, not proved. The SAN/IAN URI-host divergence was a genuine defect, repaired by fix: fb75916."}
 
 NOT_APPLICABLE = {}
